@@ -1022,7 +1022,7 @@ def SignatureHash(script, txTo, inIdx, hashtype, amount=None, sigversion=SIGVERS
         f.write(struct.pack("<q", amount))
         f.write(struct.pack("<I", txTo.vin[inIdx].nSequence))
         f.write(hashOutputs)
-        f.write(struct.pack("<i", txTo.nLockTime))
+        f.write(struct.pack("<I", txTo.nLockTime))
         f.write(struct.pack("<i", hashtype))
 
         return bitcoin.core.Hash(f.getvalue())
